@@ -15,11 +15,14 @@ impl Trivia {
 
         // Used to keep track of the how many newlines in a row are found in the input
         let mut newline_count = 0;
+        // Empty lines at the start of the input are dropped
+        let mut at_start = true;
 
         for token in Lexer::new(source) {
             // Reset the newline count if any token other than newlines or whitespace is encountered
             if !matches!(token.token, Token::NewLine | Token::Whitespace) {
                 newline_count = 0;
+                at_start = false;
             }
 
             let maybe_trivia = match token.token {
@@ -41,7 +44,7 @@ impl Trivia {
                 Token::NewLine => {
                     newline_count += 1;
                     // Capture an `EmptyLine` item if 2 newlines after each other are encountered
-                    if newline_count == 2 {
+                    if newline_count == 2 && !at_start {
                         Some(TriviaToken::EmptyLine)
                     } else {
                         None
